@@ -96,6 +96,9 @@ def handle (ds : DState) (op : String) (args impl : List String) : Option (DStat
     | ["empty"] => fin { clear st with disk := .empty, planted := some .emptyFile } (.ok "prep.empty")
     | ["junk", _] => fin { clear st with disk := .junk, planted := some .notHdf5 } (.ok "prep.junk")
     | ["dir"] => fin { clear st with disk := .dir, planted := some .directory } (.ok "prep.dir")
+    | ["symlink"] =>
+      -- the same file behind a symbolic link: what is at the path (followed) is what was there; every later open must treat it alike
+      fin { st with session := none, implOpen := none, implRequested := none, pathBefore := none } (.ok "prep.symlink")
     | ["plainh5"] => fin { clear st with disk := .h5 emptyRoot emptyContent, planted := some .plainHdf5 } (.ok "prep.plainh5")
     | ["trunc", _] => fin { clear st with disk := .junk, planted := some .truncated } (.ok "prep.trunc")
     | ["hdr", vtok, ftok, itok] =>
